@@ -210,6 +210,19 @@ func constIntOf(v ssa.Value) (int64, bool) {
 	return constant.Int64Val(c.Value)
 }
 
+// minMaxArgs: v is a call of the builtin min or max; its arguments.
+func minMaxArgs(v ssa.Value) (string, []ssa.Value) {
+	call, ok := v.(*ssa.Call)
+	if !ok {
+		return "", nil
+	}
+	b, ok := call.Call.Value.(*ssa.Builtin)
+	if !ok || (b.Name() != "min" && b.Name() != "max") {
+		return "", nil
+	}
+	return b.Name(), call.Call.Args
+}
+
 // proveLELen: v <= len(y) holds whenever control is at block `at` (facts fs).
 func proveLELen(v, y ssa.Value, fs []fact, depth int) bool {
 	if depth > 6 {
@@ -220,6 +233,18 @@ func proveLELen(v, y ssa.Value, fs []fact, depth int) bool {
 	}
 	if k, ok := constIntOf(v); ok && k == 0 {
 		return true
+	}
+	// min(a, b, …) <= each of its arguments; max(a, b, …) <= n iff every argument is
+	if nm, args := minMaxArgs(v); nm != "" {
+		all, any := true, false
+		for _, a := range args {
+			if proveLELen(a, y, fs, depth+1) {
+				any = true
+			} else {
+				all = false
+			}
+		}
+		return nm == "min" && any || nm == "max" && all
 	}
 	for _, f := range relFacts(fs) {
 		if f.x == v && isLenOf(f.y, y) && (f.r == relLT || f.r == relLE || f.r == relEQ) {
@@ -322,6 +347,17 @@ func proveGE0(v ssa.Value, fs []fact, depth int) bool {
 		if b, ok := call.Call.Value.(*ssa.Builtin); ok && (b.Name() == "len" || b.Name() == "cap") {
 			return true
 		}
+	}
+	if nm, args := minMaxArgs(v); nm != "" {
+		all, any := true, false
+		for _, a := range args {
+			if proveGE0(a, fs, depth+1) {
+				any = true
+			} else {
+				all = false
+			}
+		}
+		return nm == "min" && all || nm == "max" && any
 	}
 	rf := relFacts(fs)
 	for _, f := range rf {
